@@ -861,8 +861,39 @@ func famParse(tr *Trace, id *int) int {
 			}
 		}
 	}
+	// (a2) a document of more than a megabyte (a scripted relation list): what comes after the first megabyte is read,
+	// checked and expanded like the rest
+	{
+		big := make([]any, 0, 90000)
+		for i := 0; i < 90000; i++ {
+			big = append(big, fmt.Sprintf("dep-%06d", i))
+		}
+		doc := minimalDoc()
+		doc["depends"] = big
+		doc["zzz_unknown_key"] = "x"
+		cfg, y, err := parseDoc(doc, nil)
+		msg := ""
+		if err != nil {
+			msg = firstN(safeStr(err.Error()), 300)
+		}
+		afAll, afAny, same := parseDocFile(fdir, doc, y, nil, cfg, err)
+		emit(M{"ev": "probe", "kind": "unknown", "path": "zzz_unknown_key (after " + strconv.Itoa(len(y)) + " bytes)", "accepted": err == nil, "err": msg, "accepted_file_all": afAll, "accepted_file_any": afAny, "file_same": same})
+		for _, env := range []map[string]string{{"VAR": "val", "OTHER": "o2"}, {}} {
+			doc2 := minimalDoc()
+			doc2["depends"] = big
+			doc2["vendor"] = "pre-${VAR}-post"
+			cfg2, _, err2 := parseDoc(doc2, env)
+			ev := M{"ev": "expand", "path": "vendor", "kind": "string", "raw": "pre-${VAR}-post", "rawtag": "after-a-megabyte", "env": envM(env), "opt": "absent", "obs": []any{}, "err": ""}
+			if err2 != nil {
+				ev["err"] = firstN(safeStr(err2.Error()), 300)
+			} else {
+				ev["obs"] = []any{safeStr(cfg2.Vendor)}
+			}
+			emit(ev)
+		}
+	}
 	// (b) expansion of every string-valued leaf
-	raws := []struct{ raw, tag string }{{"pre-$VAR-post", "dollar"}, {"pre-${VAR}-post", "brace"}, {"plain value", "plain"}, {"  ${VAR}  ", "padded"}, {"${EMPTYV}", "vanish"}, {"$VAR$OTHER", "two"}, {"  padded plain  ", "paddedplain"}, {"~/keys/plain.key", "tilde"}, {"~${VAR}/x", "tildevar"}}
+	raws := []struct{ raw, tag string }{{"John Doe <john@example.com>", "mailbox"}, {"john.doe@example.com", "bareaddr"}, {"\"$EMPTYV\" <$VAR@example.com>", "emptyquoted"}, {"Zo\u00eb D\u00f6 <zoe@example.com>", "mailbox8"},{"pre-$VAR-post", "dollar"}, {"pre-${VAR}-post", "brace"}, {"plain value", "plain"}, {"  ${VAR}  ", "padded"}, {"${EMPTYV}", "vanish"}, {"$VAR$OTHER", "two"}, {"  padded plain  ", "paddedplain"}, {"~/keys/plain.key", "tilde"}, {"~${VAR}/x", "tildevar"}}
 	envs := []map[string]string{{"VAR": "val", "OTHER": "o2", "HOME": "/home/builder", "USER": "builder"}, {}, {"VAR": "  spaced  "}}
 	for _, k := range paths {
 		if k.Kind != "string" && k.Kind != "list" && k.Kind != "map" && k.Kind != "ptr" {
